@@ -100,6 +100,17 @@ def run(ctx):
                     i_ = int(np.argmax(dl))
                     viol("range-dependence/CAMB", f"CAMB: P(k) at k={t.k[i_]:.4g} on lnk in [{lo},{hi}] differs from the value on the wide grid [-18,9] by {dl[i_]:.3g} in ln P",
                          {"model": "CAMB", "lnk_min": lo, "lnk_max": hi, "k": float(t.k[i_])})
+            # two live CAMB-backed objects with different cosmologies on a narrow range: a later change on the first one must still
+            # normalise with *its* cosmology (sigma_8 by independent quadrature, and equality with a fresh object)
+            kwc = dict(transfer_model="CAMB", lnk_min=-7.0, lnk_max=6.0, dlnk=0.1)
+            a_ = Transfer(cosmo_params={"Om0": 0.25}, **kwc); a_.power
+            b_ = Transfer(cosmo_params={"Om0": 0.4, "H0": 62.0}, **kwc); b_.power
+            a_.update(n=1.0)
+            fa_ = Transfer(cosmo_params={"Om0": 0.25}, n=1.0, **kwc)
+            nrange += 1
+            if not np.allclose(a_.power, fa_.power, rtol=1e-9):
+                viol("CAMB/two-instances/normalisation", f"with a second CAMB-backed object of another cosmology alive, update(n=1.0) on the first gives a power spectrum {float(np.max(np.abs(a_.power / fa_.power - 1))):.3g} away from a fresh object's",
+                     {"sequence": "a=Transfer(CAMB, Om0=0.25, narrow k); b=Transfer(CAMB, Om0=0.4,H0=62, narrow k); a.update(n=1.0); a.power vs fresh"})
         except ImportError:
             out["assumptions"].append("CAMB not importable: range independence not exercised for the default transfer model")
         # MassFunction: normalisation does not depend on its smoothing filter; sigma(m) linear in sigma_8 and growth
